@@ -1,4 +1,4 @@
-import RV.C01.Model
+import RV.C01.NModel
 import RV.Base.Proto
 /-
   C01 driver.  Terms and graph identifiers are naturals owned by the harness; `*` = wildcard.
@@ -30,10 +30,12 @@ import RV.Base.Proto
 -/
 open RV RV.C01 RV.Proto
 
+/- Round g: the state is the NESTED-dictionary model (`NModel.lean`): `NMem` for the default store, `NSMem` for the
+   simple stores; every answer below is computed by the walks over the nested indexes. -/
 structure DS where
-  m : Mem := {}
-  s0 : SMem := {}
-  s1 : SMem := {}
+  m : NMem := {}
+  s0 : NSMem := {}
+  s1 : NSMem := {}
   its : List (Nat × Iter) := []
 
 def tripleLt (a b : Triple) : Bool := lexLt [a.1, a.2.1, a.2.2] [b.1, b.2.1, b.2.2]
@@ -72,13 +74,13 @@ def quads? : List String → Option (List Quad)
     pure ((t, d, k == 1) :: qs)
   | _ => none
 
-def ack (m : Mem) : String := if m.err then "error" else "ok"
-def sack (m : SMem) : String := if m.err then "error" else "ok"
+def ack (m : NMem) : String := if m.cx.err then "error" else "ok"
+def sack (m : NSMem) : String := if m.err then "error" else "ok"
 
-def DS.mut (d : DS) (m : Mem) : DS × String := ({ d with m := m }, ack m)
+def DS.mut (d : DS) (m : NMem) : DS × String := ({ d with m := m }, ack m)
 
-def DS.sget (d : DS) (i : Nat) : SMem := if i == 0 then d.s0 else d.s1
-def DS.sput (d : DS) (i : Nat) (s : SMem) : DS × String :=
+def DS.sget (d : DS) (i : Nat) : NSMem := if i == 0 then d.s0 else d.s1
+def DS.sput (d : DS) (i : Nat) (s : NSMem) : DS × String :=
   (if i == 0 then { d with s0 := s } else { d with s1 := s }, sack s)
 
 def sidx? (w : String) : Option Nat := if w = "0" then some 0 else if w = "1" then some 1 else none
@@ -106,7 +108,7 @@ def iterAdm (d : DS) (k : Nat) (t : Triple) : DS × String :=
     if it.fast then
       if t ∈ it.pending then ({ d with its := aset d.its k { it with pending := sremove it.pending t } }, "adm")
       else (d, "NOT-adm")
-    else if it.pat.matches t && hasCtx d.m t (some it.g) then (d, "adm") else (d, "NOT-adm")
+    else if it.pat.matches t && d.m.hasCtx t (some it.g) then (d, "adm") else (d, "NOT-adm")
 
 def step (d : DS) : List String → DS × String
   | ["reset"] => ({}, "ok")
@@ -153,7 +155,7 @@ def step (d : DS) : List String → DS × String
     | _, _ => (d, "bad-op")
   | ["tri", g, a, b, c] =>
     match g.toNat?, pat? a b c with
-    | some g, some p => (d, if triplesRaises d.m p then "error" else showTriples (triples d.m p (some g)))
+    | some g, some p => (d, if d.m.triplesRaises p then "error" else showTriples (d.m.triples p (some g)))
     | _, _ => (d, "bad-op")
   | ["madd", c, a, b, c'] =>
     match c.toNat?, triple? a b c' with
@@ -173,7 +175,7 @@ def step (d : DS) : List String → DS × String
     | none => (d, "bad-op")
   | ["mtri", c, a, b, c'] =>
     match optNat? c, pat? a b c' with
-    | some c, some p => (d, if triplesRaises d.m p then "error" else showTriplesC (d.m.triplesC p c))
+    | some c, some p => (d, if d.m.triplesRaises p then "error" else showTriplesC (d.m.triplesC p c))
     | _, _ => (d, "bad-op")
   | ["mlen", c] =>
     match optNat? c with
@@ -186,7 +188,7 @@ def step (d : DS) : List String → DS × String
   | ["ulen"] => (d, toString (d.m.len none))
   | ["utri", a, b, c] =>
     match pat? a b c with
-    | some p => (d, if triplesRaises d.m p then "error" else showTriples (triples d.m p none))
+    | some p => (d, if d.m.triplesRaises p then "error" else showTriples (d.m.triples p none))
     | none => (d, "bad-op")
   | ["bin", op, g, h] =>
     match g.toNat?, h.toNat? with
@@ -213,7 +215,7 @@ def step (d : DS) : List String → DS × String
     | _, _ => (d, "bad-op")
   | ["iopen", k, g, a, b, c] =>
     match k.toNat?, g.toNat?, pat? a b c with
-    | some k, some g, some p => ({ d with its := aset d.its k (Iter.start d.m p g) }, "ok")
+    | some k, some g, some p => ({ d with its := aset d.its k (Iter.start d.m.toMem p g) }, "ok")
     | _, _, _ => (d, "bad-op")
   | ["iyield", k, a, b, c] =>
     match k.toNat?, triple? a b c with
